@@ -237,6 +237,11 @@ func (tp *TableParser) parseCell(cell tableCellXML) ParsedTableCell {
 	// Parse column span (gridSpan)
 	if props.GridSpan.Val != "" {
 		if span, err := strconv.Atoi(props.GridSpan.Val); err == nil && span > 0 {
+			// gridSpan is used as a loop count and to size slices; Word tables have
+			// at most 63 columns, so a damaged value must not be taken at its word
+			if span > maxGridSpan {
+				span = maxGridSpan
+			}
 			parsed.ColSpan = span
 		}
 	}
@@ -316,6 +321,9 @@ func (tp *TableParser) parseCellParagraph(p paragraphXML) parsedParagraph {
 
 	return parsed
 }
+
+// maxGridSpan bounds the column span read from a cell's gridSpan attribute.
+const maxGridSpan = 1024
 
 // processVerticalMerges calculates row spans for vertically merged cells.
 func (tp *TableParser) processVerticalMerges(table *ParsedTable) {
